@@ -5,8 +5,8 @@ META = {
     "explanation": "Typestate of the launch loop and of the wait step over the typed-exception CFG (EX6/EX7: every path "
                    "from dequeue/wait ends skipped∧processed, launched∧registered, failed∧stored∧processed or aborted∧re-raised), "
                    "the success predicate (EX4/EX5), failure precedence in finish_execution (RT1), launch failures "
-                   "(RT7), wait-status decoding (SGc), the report and exit status (EX9, CLI1), --stop-early (EX10), and the planner's edge completeness (PL1–PL3, PL10, W1: a dependent can only be skipped if the edge from the failed task exists).",
-    "rules": ["EX4", "EX5", "EX6", "EX7", "RT1", "RT7", "SGc", "EX9", "CLI1", "EX10", "EX1", "PL1", "PL2", "PL3", "PL10", "W1(planner)"],
+                   "(RT7), wait-status decoding (SGc), the report and exit status (EX9, CLI1), --stop-early (EX10), and the planner's edge completeness (PL1–PL3, PL10, W1: a dependent can only be skipped if the edge from the failed task exists). Slot accounting cannot underflow after a launch failure (EX14, EX15).",
+    "rules": ["EX4", "EX5", "EX6", "EX7", "RT1", "RT7", "SGc", "EX9", "CLI1", "EX10", "EX1", "PL1", "PL2", "PL3", "PL10", "W1(planner)", "EX14", "EX15"],
     "assumptions": ["liveness half ('every other needed task still runs') is covered only through 'no op is dropped' (EX6/EX7) and the enqueue gate",
                     "signal delivery between statements (DESIGN §3.7)"],
     "trusted": ["ast parser", "typed exception summaries (sa/exc.py tables for externals)"],
@@ -29,3 +29,6 @@ def run(A, rep, tier):
     # a dependent is skipped only if the edge from the failed task exists: planner edge completeness
     F = P.rules_planner_links(A, rep)
     P.rule_w1_planner(A, rep, F)
+    # the slot pool cannot underflow after a launch failure (an IndexError would end the run without the failed/skipped report)
+    E.rule_ex14(A, rep, X)
+    E.rule_ex15(A, rep, X)
